@@ -9,6 +9,7 @@ import BR.Scalar
 import BR.Gen.C15
 import BR.Model.Comms
 import BR.Model.MR
+import BR.Model.Tm
 
 namespace BR.Driver
 
@@ -130,6 +131,51 @@ end MRIO
 /-- session state of the stateful models -/
 structure DState where
   comms : BR.Comms.St := BR.Comms.init []
+  tms : List (BR.TmModel.Tm Float) := []
+
+namespace TmIO
+open BR.TmModel BR.MR MRIO
+
+def fl (l : List String) : Option (List Float) := allSome (l.map parseFloat)
+
+def parseOp : List String → Option (Op Float)
+  | "ctor6" :: rpy :: r => do let (v, _) ← v6 (← fl r); some (.ctor6 v (rpy == "1"))
+  | "ctor3" :: rpy :: r => do let (v, _) ← v3 (← fl r); some (.ctor3 v (rpy == "1"))
+  | "ctor7" :: r => do
+      let f ← fl r
+      match f with
+      | [a, b, c, x, y, z, w] => some (.ctor7 ⟨a, b, c⟩ x y z w)
+      | _ => none
+  | "ctorPair" :: rpy :: r => do let (v, _) ← v6 (← fl r); some (.ctorPair v.a v.b (rpy == "1"))
+  | "ctorTM" :: r => do let (t, _) ← t4 (← fl r); some (.ctorTM t)
+  | ["ctorCopy", i] => do some (.ctorCopy (← i.toNat?))
+  | ["ctorCopyArr", i] => do some (.ctorCopyArr (← i.toNat?))
+  | "sTM" :: i :: r => do let (t, _) ← t4 (← fl r); some (.sTM (← i.toNat?) t)
+  | "sTAA" :: i :: r => do let (v, _) ← v6 (← fl r); some (.sTAA (← i.toNat?) v)
+  | ["set", i, k, x] => do some (.set (← i.toNat?) (← k.toNat?) (← parseFloat x))
+  | "setPos" :: i :: r => do let (v, _) ← v3 (← fl r); some (.setPos (← i.toNat?) v)
+  | "setRot" :: i :: r => do let (v, _) ← v3 (← fl r); some (.setRot (← i.toNat?) v)
+  | ["setQuat", i, x, y, z, w] => do
+      some (.setQuat (← i.toNat?) (← parseFloat x) (← parseFloat y) (← parseFloat z) (← parseFloat w))
+  | ["angleMod", i] => do some (.angleMod (← i.toNat?))
+  | ["copy", i] => do some (.copy (← i.toNat?))
+  | ["inv", i] => do some (.inv (← i.toNat?))
+  | ["matmul", i, j] => do some (.matmul (← i.toNat?) (← j.toNat?))
+  | ["add", i, j] => do some (.add (← i.toNat?) (← j.toNat?))
+  | ["sub", i, j] => do some (.sub (← i.toNat?) (← j.toNat?))
+  | ["mulS", i, k] => do some (.mulS (← i.toNat?) (← parseFloat k))
+  | ["divS", i, k] => do some (.divS (← i.toNat?) (← parseFloat k))
+  | ["abs", i] => do some (.abs (← i.toNat?))
+  | ["floordivS", i, k] => do some (.floordivS (← i.toNat?) (← parseFloat k))
+  | ["floordiv", i, j] => do some (.floordiv (← i.toNat?) (← j.toNat?))
+  | ["l2g", i, j] => do some (.l2g (← i.toNat?) (← j.toNat?))
+  | ["g2l", i, j] => do some (.g2l (← i.toNat?) (← j.toNat?))
+  | _ => none
+
+def fmtTm (t : Tm Float) : String :=
+  " ".intercalate ((oT4 t.TM 1 ++ oV6 t.TAA).map fmtFloat)
+
+end TmIO
 
 namespace CommsIO
 open BR.Comms
@@ -179,6 +225,15 @@ def handleState (st : DState) (fn : String) (args : List String) : Option (DStat
       | some op =>
         let (s', r, evs) := BR.Comms.step st.comms op
         some ({ st with comms := s' }, CommsIO.fmtRet r ++ "|" ++ ";".intercalate (evs.map CommsIO.fmtEv))
+      | none => some (st, "bad-op")
+  | "tm.reset" => some ({ st with tms := [] }, "ok")
+  | "tm.op" => match TmIO.parseOp args with
+      | some op =>
+        let s' := BR.TmModel.step st.tms op
+        let idx := match BR.TmModel.target op with
+          | some i => i
+          | none => s'.length - 1
+        some ({ st with tms := s' }, s!"{idx} " ++ TmIO.fmtTm (BR.TmModel.getD s' idx))
       | none => some (st, "bad-op")
   | _ => none
 
